@@ -2,11 +2,23 @@ import Sqljson.Model.Json
 /-!
 # Datetime model — mirror of `path/types` and of the cast/compare matrices of `exec/datetime.go`
 
-INTERFACE (used by `Exec.lean`; bodies are being written — see DESIGN §6 C17/C18):
+Everything here is a total, executable function over `Int`, `Nat`, `List Char`.  Go names are
+given in the doc comments.  The model describes the code that exists (bugs included).
+
+Layering:
+
+* `Zone`, `Zone.lookup`                  — `time.Location`, `(*Location).lookup`
+* `daysFromCivil`, `civilFromDays`, …    — proleptic Gregorian calendar (what `absDate`/`Date` compute)
+* `GoTime`, `goDate`, `GoTime.round`, `GoTime.inZone` — `time.Time`, `time.Date`, `Time.Round`, `Time.In`
+* `El`, `Layout`, `parseLayout`, `format` — `time.Parse` / `Time.Format` for the layouts of the package
+* `newDate` … `newTimestampTZ`, `parseTime`, `toString`, `marshalJSON`, `unmarshalJSON` — `path/types`
+* `castTo`, `compareDatetime`            — `path/exec/datetime.go`
 -/
 
 namespace Sqljson
 namespace Time
+
+/-! ## Locations -/
 
 /-- A Go `*time.Location` as far as the package can observe it: the offset in force at a UTC
     instant.  `trans` lists `(unixStart, offsetSeconds)` ascending; before the first transition
@@ -23,27 +35,715 @@ def Zone.fixed (off : Int) : Zone := ⟨off, []⟩
 def Zone.offsetAt (z : Zone) (sec : Int) : Int :=
   z.trans.foldl (fun acc (t : Int × Int) => if t.1 ≤ sec then t.2 else acc) z.initial
 
+/-- What `(*Location).lookup` returns besides the name: the offset and the bounds `[start, stop)`
+    of the period it is valid in.  `none` stands for `alpha` (−2⁶³) resp. `omega` (2⁶³−1). -/
+structure Period where
+  off : Int
+  start : Option Int
+  stop : Option Int
+deriving Repr, DecidableEq, Inhabited
+
+/-- walk the ascending transition list; `off`/`start` describe the period found so far -/
+def Zone.lookupAux (sec : Int) : List (Int × Int) → Int → Option Int → Period
+  | [], off, start => ⟨off, start, none⟩
+  | (t, o) :: rest, off, start =>
+    if t ≤ sec then Zone.lookupAux sec rest o (some t) else ⟨off, start, some t⟩
+
+/-- `(*Location).lookup(sec)` -/
+def Zone.lookup (z : Zone) (sec : Int) : Period := Zone.lookupAux sec z.trans z.initial none
+
 /-- evaluation-time parameters that come from the Go runtime -/
 structure Env where
   zone : Zone          -- `types.TZFromContext(ctx)`
-  todayDays : Int      -- `time.Now()`'s civil date in `zone`, as days since 1970-01-01 (only `Time.ToTimeTZ` reads it)
+  todayDays : Int      -- civil date of `time.Now()` **in `time.Local`** (that is what `Time.ToTimeTZ`
+                       -- reads: `now.Year(), now.Month(), now.Day()`), as days since 1970-01-01
 deriving Repr, Inhabited
 
 inductive CastErr | notRecognized | tzRequired
 deriving Repr, DecidableEq
 
-/-- `types.ParseTime(ctx, src, precision)`; `precision = -1` means none -/
+/-! ## Civil calendar -/
 
-def parseTime (_env : Env) (_src : List Char) (_precision : Int) : Option DateTime := none
+/-- `time.isLeap` -/
+def isLeap (y : Int) : Bool := y % 4 == 0 && (y % 100 != 0 || y % 400 == 0)
+
+/-- `time.daysIn(m, year)` for `1 ≤ m ≤ 12` -/
+def daysIn (m y : Int) : Int :=
+  if m == 2 then (if isLeap y then 29 else 28)
+  else if m == 4 || m == 6 || m == 9 || m == 11 then 30 else 31
+
+/-- days since 1970-01-01 of the proleptic Gregorian date `y-m-d` (`1 ≤ m ≤ 12`; any `d`: day
+    overflow is linear, as in `time.Date`) -/
+def daysFromCivil (y m d : Int) : Int :=
+  let y' := if m ≤ 2 then y - 1 else y
+  let era := y' / 400
+  let yoe := y' - era * 400
+  let mp := (m + 9) % 12
+  let doy := (153 * mp + 2) / 5 + d - 1
+  let doe := yoe * 365 + yoe / 4 - yoe / 100 + doy
+  era * 146097 + doe - 719468
+
+/-- inverse of `daysFromCivil`: `(year, month, day)` -/
+def civilFromDays (z0 : Int) : Int × Int × Int :=
+  let z := z0 + 719468
+  let era := z / 146097
+  let doe := z - era * 146097
+  let yoe := (doe - doe / 1460 + doe / 36524 - doe / 146096) / 365
+  let y := yoe + era * 400
+  let doy := doe - (365 * yoe + yoe / 4 - yoe / 100)
+  let mp := (5 * doy + 2) / 153
+  let d := doy - (153 * mp + 2) / 5 + 1
+  let m := if mp < 10 then mp + 3 else mp - 9
+  (if m ≤ 2 then y + 1 else y, m, d)
+
+/-- broken-down presentation fields (`Year() … Second()`) -/
+structure Civil where
+  year : Int
+  month : Int
+  day : Int
+  hour : Int
+  min : Int
+  sec : Int
+deriving Repr, DecidableEq, Inhabited
+
+/-- fields of the wall-clock second count `t` (seconds since 1970-01-01T00:00:00 on that wall clock) -/
+def civilOfUnix (t : Int) : Civil :=
+  let days := t / 86400
+  let rem := t % 86400
+  let ymd := civilFromDays days
+  ⟨ymd.1, ymd.2.1, ymd.2.2, rem / 3600, rem % 3600 / 60, rem % 60⟩
+
+/-! ## `time.Time` -/
+
+/-- A `time.Time`: instant (`sec`,`nsec`) and the zone offset its location has at that instant. -/
+structure GoTime where
+  sec : Int
+  nsec : Nat
+  off : Int
+deriving Repr, DecidableEq, Inhabited
+
+/-- `Year(), Month(), Day(), Hour(), Minute(), Second()` of `t` in its own location -/
+def GoTime.civil (t : GoTime) : Civil := civilOfUnix (t.sec + t.off)
+
+/-- `norm(hi, lo, base)`: floor division carrying into `hi` -/
+def norm (hi lo base : Int) : Int × Int := (hi + lo / base, lo % base)
+
+/-- first half of `time.Date`: the wall-clock second count and normalised nanoseconds -/
+def dateWall (year month day hour min sec nsec : Int) : Int × Nat :=
+  let ym := norm year (month - 1) 12
+  let sn := norm sec nsec 1000000000
+  let ms := norm min sn.1 60
+  let hm := norm hour ms.1 60
+  let dh := norm day hm.1 24
+  let d := daysFromCivil ym.1 (ym.2 + 1) 1 + (dh.1 - 1)
+  (d * 86400 + dh.2 * 3600 + hm.2 * 60 + ms.2, sn.2.toNat)
+
+def beforeStart (utc : Int) : Option Int → Bool
+  | none => false
+  | some s => utc < s
+
+def atOrAfterStop (utc : Int) : Option Int → Bool
+  | none => false
+  | some e => utc ≥ e
+
+/-- second half of `time.Date`: wall clock → UTC by the two-step lookup -/
+def resolveWall (z : Zone) (unix : Int) : Int :=
+  let p := z.lookup unix
+  if p.off ≠ 0 then
+    let utc := unix - p.off
+    let off := if beforeStart utc p.start || atOrAfterStop utc p.stop then (z.lookup utc).off else p.off
+    unix - off
+  else unix
+
+/-- `time.Date(year, month, day, hour, min, sec, nsec, loc)` -/
+def goDate (year month day hour min sec nsec : Int) (z : Zone) : GoTime :=
+  let w := dateWall year month day hour min sec nsec
+  let u := resolveWall z w.1
+  ⟨u, w.2, z.offsetAt u⟩
+
+/-- `t.In(loc)` -/
+def GoTime.inZone (t : GoTime) (z : Zone) : GoTime := ⟨t.sec, t.nsec, z.offsetAt t.sec⟩
+
+/-- `t.UTC()` -/
+def GoTime.utc (t : GoTime) : GoTime := ⟨t.sec, t.nsec, 0⟩
+
+/-- seconds from the zero `time.Time` (0001-01-01T00:00:00Z) to the Unix epoch -/
+def unixToInternal : Int := 62135596800
+
+/-- nanoseconds since the zero time -/
+def GoTime.absNanos (t : GoTime) : Int := (t.sec + unixToInternal) * 1000000000 + t.nsec
+
+def GoTime.ofAbsNanos (a : Int) (off : Int) : GoTime :=
+  ⟨a / 1000000000 - unixToInternal, (a % 1000000000).toNat, off⟩
+
+/-- `t.Round(d)` for `d > 0` nanoseconds: nearest multiple of `d` since the zero time, halves up -/
+def GoTime.round (t : GoTime) (d : Nat) : GoTime :=
+  if d = 0 then t else
+  let a := t.absNanos
+  let r := a % (d : Int)
+  if r + r < (d : Int) then GoTime.ofAbsNanos (a - r) t.off else GoTime.ofAbsNanos (a + d - r) t.off
+
+/-- `t1.Compare(t2)`: instants only -/
+def GoTime.compare (a b : GoTime) : Int :=
+  if a.sec < b.sec then -1 else if a.sec > b.sec then 1
+  else if a.nsec < b.nsec then -1 else if a.nsec > b.nsec then 1 else 0
+
+/-! ## Layouts -/
+
+inductive TzStyle | short | colon | colonSec   -- `07`, `07:00`, `07:00:00`
+deriving Repr, DecidableEq
+
+/-- one chunk of a layout as `nextStdChunk` cuts it; `lit` is one byte of literal prefix -/
+inductive El
+  | year      -- `2006`  stdLongYear
+  | month     -- `01`    stdZeroMonth
+  | day       -- `02`    stdZeroDay
+  | hour      -- `15`    stdHour
+  | minute    -- `04`    stdZeroMinute
+  | second    -- `05`    stdZeroSecond
+  | frac9     -- `.999999999` stdFracSecond9
+  | tz (iso : Bool) (style : TzStyle)  -- `Z07…` (iso) / `-07…`
+  | lit (c : Char)
+deriving Repr, DecidableEq
+
+abbrev Layout := List El
+
+def El.isFrac : El → Bool | .frac9 => true | _ => false
+
+/-- the std chunk `nextStdChunk` would find next (literals skipped) -/
+def nextStd : Layout → Option El
+  | [] => none
+  | .lit _ :: rest => nextStd rest
+  | e :: _ => some e
+
+def ymdL : Layout := [.year, .lit '-', .month, .lit '-', .day]
+def hmsL : Layout := [.hour, .lit ':', .minute, .lit ':', .second]
+
+/-- `"2006-01-02"` -/
+def dateL : Layout := ymdL
+/-- `"15:04:05"` -/
+def timeL : Layout := hmsL
+/-- `"15:04:05Z07"` -/
+def timeTZHourL : Layout := hmsL ++ [.tz true .short]
+/-- `"15:04:05Z07:00"` -/
+def timeTZMinL : Layout := hmsL ++ [.tz true .colon]
+/-- `"2006-01-02T15:04:05"` / `"2006-01-02 15:04:05"` -/
+def timestampL (sep : Char) : Layout := ymdL ++ [.lit sep] ++ hmsL
+/-- `"2006-01-02?15:04:05Z07"` -/
+def timestampTZHourL (sep : Char) : Layout := timestampL sep ++ [.tz true .short]
+/-- `"2006-01-02?15:04:05Z07:00"` -/
+def timestampTZMinL (sep : Char) : Layout := timestampL sep ++ [.tz true .colon]
+
+/-- `timeFormat = "15:04:05.999999999"` -/
+def timeFracL : Layout := hmsL ++ [.frac9]
+/-- `timeTZSecondFormat`, `timeTZMinuteFormat`, `timeTZHourFormat` -/
+def timeTZFracL (s : TzStyle) : Layout := timeFracL ++ [.tz true s]
+/-- `timeTZOutputFormat = "15:04:05.999999999-07:00"` -/
+def timeTZOutL : Layout := timeFracL ++ [.tz false .colon]
+/-- `timestampFormat = "2006-01-02T15:04:05.999999999"` -/
+def timestampFracL : Layout := timestampL 'T' ++ [.frac9]
+/-- `timestampTZSecondFormat`, `…MinuteFormat`, `…HourFormat` -/
+def timestampTZFracL (s : TzStyle) : Layout := timestampFracL ++ [.tz true s]
+/-- `timestampTZOutputFormat = "2006-01-02T15:04:05.999999999-07:00"` -/
+def timestampTZOutL : Layout := timestampFracL ++ [.tz false .colon]
+
+/-! ### `nextStdChunk`, restricted
+
+`chunkLayout` cuts a Go layout string into chunks the way repeated `nextStdChunk` calls do, for the
+chunk kinds the package uses; any other std chunk (`Jan`, `Mon`, `MST`, `1`, `2`, `_2`, `3`, `4`, `5`,
+`03`, `06`, `002`, `PM`, `-0700`, `Z0700`, `.000`, …) gives `none`.  `Props/TimeLemmas.lean` checks
+that the layout strings of the Go source cut into the `Layout` values above. -/
+
+/-- characters at which `nextStdChunk` may start a std chunk -/
+def stdStart (c : Char) : Bool :=
+  c == 'J' || c == 'M' || c == '0' || c == '1' || c == '2' || c == '_' || c == '3' || c == '4'
+    || c == '5' || c == 'P' || c == 'p' || c == '-' || c == 'Z' || c == '.' || c == ','
+
+def startsWithDigit : List Char → Bool
+  | c :: _ => isDigitC c
+  | [] => false
+where isDigitC (c : Char) : Bool := '0' ≤ c && c ≤ '9'
+
+def chunkLayout : List Char → Option Layout
+  | [] => some []
+  | '2' :: '0' :: '0' :: '6' :: r => (chunkLayout r).map (.year :: ·)
+  | '0' :: '1' :: r => (chunkLayout r).map (.month :: ·)
+  | '0' :: '2' :: r => (chunkLayout r).map (.day :: ·)
+  | '1' :: '5' :: r => (chunkLayout r).map (.hour :: ·)
+  | '0' :: '4' :: r => (chunkLayout r).map (.minute :: ·)
+  | '0' :: '5' :: r => (chunkLayout r).map (.second :: ·)
+  | '.' :: '9' :: '9' :: '9' :: '9' :: '9' :: '9' :: '9' :: '9' :: '9' :: r =>
+    -- "String of digits must end here"
+    if startsWithDigit r then none else (chunkLayout r).map (.frac9 :: ·)
+  | 'Z' :: '0' :: '7' :: ':' :: '0' :: '0' :: ':' :: '0' :: '0' :: r => (chunkLayout r).map (.tz true .colonSec :: ·)
+  | 'Z' :: '0' :: '7' :: ':' :: '0' :: '0' :: r => (chunkLayout r).map (.tz true .colon :: ·)
+  | 'Z' :: '0' :: '7' :: '0' :: '0' :: _ => none       -- Z0700 / Z070000
+  | 'Z' :: '0' :: '7' :: r => (chunkLayout r).map (.tz true .short :: ·)
+  | '-' :: '0' :: '7' :: ':' :: '0' :: '0' :: ':' :: '0' :: '0' :: r => (chunkLayout r).map (.tz false .colonSec :: ·)
+  | '-' :: '0' :: '7' :: ':' :: '0' :: '0' :: r => (chunkLayout r).map (.tz false .colon :: ·)
+  | '-' :: '0' :: '7' :: '0' :: '0' :: _ => none       -- -0700 / -070000
+  | '-' :: '0' :: '7' :: r => (chunkLayout r).map (.tz false .short :: ·)
+  | '-' :: r => (chunkLayout r).map (.lit '-' :: ·)    -- no `-07…` here: a literal
+  | c :: r => if stdStart c then none else (chunkLayout r).map (.lit c :: ·)
+
+/-! ## `time.Parse` -/
+
+def isDigit (c : Char) : Bool := '0' ≤ c && c ≤ '9'
+def digitVal (c : Char) : Nat := c.toNat - 48
+
+/-- `getnum(s, fixed)`: one or two digits (`fixed` forces two) -/
+def getnum (s : List Char) (fixed : Bool) : Option (Nat × List Char) :=
+  match s with
+  | [] => none
+  | [a] => if isDigit a && !fixed then some (digitVal a, []) else none
+  | a :: b :: rest =>
+    if !isDigit a then none
+    else if isDigit b then some (digitVal a * 10 + digitVal b, rest)
+    else if fixed then none
+    else some (digitVal a, b :: rest)
+
+/-- stdLongYear: exactly four digits -/
+def getYear (s : List Char) : Option (Nat × List Char) :=
+  match s with
+  | a :: b :: c :: d :: rest =>
+    if isDigit a && isDigit b && isDigit c && isDigit d then
+      some (((digitVal a * 10 + digitVal b) * 10 + digitVal c) * 10 + digitVal d, rest)
+    else none
+  | _ => none
+
+def commaOrPeriod (c : Char) : Bool := c == '.' || c == ','
+
+/-- leading run of digits and the rest -/
+def spanDigits : List Char → List Char × List Char
+  | [] => ([], [])
+  | c :: cs => if isDigit c then let r := spanDigits cs; (c :: r.1, r.2) else ([], c :: cs)
+
+def digitsVal (ds : List Char) : Nat := ds.foldl (fun a c => a * 10 + digitVal c) 0
+
+/-- `parseNanoseconds` on the digits after the separator: first nine digits, scaled to 10⁻⁹ -/
+def nanosOfDigits (ds : List Char) : Nat :=
+  let ds9 := ds.take 9
+  digitsVal ds9 * 10 ^ (9 - ds9.length)
+
+/-- `len(value) >= 2 && commaOrPeriod(value[0]) && isDigit(value, 1)` -/
+def hasFrac : List Char → Bool
+  | c :: d :: _ => commaOrPeriod c && isDigit d
+  | _ => false
+
+/-- consume separator and the maximal digit run (call only when `hasFrac`) -/
+def takeFrac : List Char → Nat × List Char
+  | [] => (0, [])
+  | _ :: rest => let r := spanDigits rest; (nanosOfDigits r.1, r.2)
+
+def cutspace : List Char → List Char
+  | ' ' :: r => cutspace r
+  | r => r
+
+/-- `skip(value, prefix)` for a one-byte prefix -/
+def skipLit (c : Char) (v : List Char) : Option (List Char) :=
+  if c == ' ' then
+    match v with
+    | [] => some []
+    | x :: _ => if x == ' ' then some (cutspace v) else none
+  else
+    match v with
+    | x :: r => if x == c then some r else none
+    | [] => none
+
+def signOf (c : Char) : Option Int := if c == '+' then some 1 else if c == '-' then some (-1) else none
+
+def two (a b : Char) : Option Nat := if isDigit a && isDigit b then some (digitVal a * 10 + digitVal b) else none
+
+/-- range rule and sign of a numeric offset: hours ≤ 24, minutes ≤ 60, seconds ≤ 60 -/
+def mkOffset (sg : Char) (hr mm ss : Option Nat) : Option Int :=
+  match signOf sg, hr, mm, ss with
+  | some s, some h, some m, some x =>
+    if h > 24 || m > 60 || x > 60 then none else some (s * (((h * 60 + m) * 60 + x : Nat) : Int))
+  | _, _, _, _ => none
+
+/-- numeric zone offset (`stdNum…TZ` branch of `parse`): offset seconds and rest -/
+def parseOffset (style : TzStyle) (v : List Char) : Option (Int × List Char) :=
+  match style, v with
+  | .short, sg :: h1 :: h2 :: rest =>
+    (mkOffset sg (two h1 h2) (some 0) (some 0)).map (·, rest)
+  | .colon, sg :: h1 :: h2 :: c :: m1 :: m2 :: rest =>
+    if c == ':' then (mkOffset sg (two h1 h2) (two m1 m2) (some 0)).map (·, rest) else none
+  | .colonSec, sg :: h1 :: h2 :: c :: m1 :: m2 :: c' :: s1 :: s2 :: rest =>
+    if c == ':' && c' == ':' then (mkOffset sg (two h1 h2) (two m1 m2) (two s1 s2)).map (·, rest) else none
+  | _, _ => none
+
+/-- the variables `parse` fills in (`month`/`day` start at their defaults: no yday in our layouts) -/
+structure Acc where
+  year : Nat := 0
+  month : Nat := 1
+  day : Nat := 1
+  hour : Nat := 0
+  min : Nat := 0
+  sec : Nat := 0
+  nsec : Nat := 0
+  zUTC : Bool := false         -- `z = UTC`
+  zoneOffset : Int := -1       -- `zoneOffset`, with Go's `-1` = "unset" sentinel
+deriving Repr, DecidableEq, Inhabited
+
+/-- one iteration of the loop in `parse` for chunk `e`; `next` = the following std chunk -/
+def parseEl (e : El) (next : Option El) (acc : Acc) (v : List Char) : Option (Acc × List Char) :=
+  match e with
+  | .lit c => (skipLit c v).map (acc, ·)
+  | .year => (getYear v).map fun (n, r) => ({ acc with year := n }, r)
+  | .month =>
+    match getnum v true with
+    | some (n, r) => if n = 0 || n > 12 then none else some ({ acc with month := n }, r)
+    | none => none
+  | .day => (getnum v true).map fun (n, r) => ({ acc with day := n }, r)
+  | .hour =>
+    match getnum v false with
+    | some (n, r) => if n ≥ 24 then none else some ({ acc with hour := n }, r)
+    | none => none
+  | .minute =>
+    match getnum v true with
+    | some (n, r) => if n ≥ 60 then none else some ({ acc with min := n }, r)
+    | none => none
+  | .second =>
+    match getnum v true with
+    | some (n, r) =>
+      if n ≥ 60 then none
+      else if hasFrac r && !(next.map El.isFrac).getD false then
+        let f := takeFrac r
+        some ({ acc with sec := n, nsec := f.1 }, f.2)
+      else some ({ acc with sec := n }, r)
+    | none => none
+  | .frac9 =>
+    if hasFrac v then let f := takeFrac v; some ({ acc with nsec := f.1 }, f.2)
+    else some (acc, v)
+  | .tz iso style =>
+    match iso, v with
+    | true, 'Z' :: r => some ({ acc with zUTC := true }, r)
+    | _, _ => (parseOffset style v).map fun (o, r) => ({ acc with zoneOffset := o }, r)
+
+/-- the loop of `parse`: all chunks, then nothing may be left over -/
+def parseLayout : Layout → Acc → List Char → Option Acc
+  | [], acc, v => if v.isEmpty then some acc else none
+  | e :: rest, acc, v =>
+    match parseEl e (nextStd rest) acc v with
+    | none => none
+    | some (acc', v') => parseLayout rest acc' v'
+
+/-- tail of `parse`: validate the day of the month, build the `Time` -/
+def finishParse (acc : Acc) : Option GoTime :=
+  if acc.day < 1 || (acc.day : Int) > daysIn acc.month acc.year then none
+  else
+    let w := dateWall acc.year acc.month acc.day acc.hour acc.min acc.sec acc.nsec
+    if acc.zUTC then some ⟨w.1, w.2, 0⟩
+    else if acc.zoneOffset ≠ -1 then some ⟨w.1 - acc.zoneOffset, w.2, acc.zoneOffset⟩
+    else some ⟨w.1, w.2, 0⟩
+
+/-- `time.Parse(layout, value)`; `none` = error -/
+def goParse (l : Layout) (v : List Char) : Option GoTime :=
+  match parseLayout l {} v with
+  | none => none
+  | some acc => finishParse acc
+
+/-! ## `Time.Format` -/
+
+/-- `appendInt(b, x, width)` -/
+def appendInt (x : Int) (width : Nat) : List Char :=
+  let ds := Nat.toDigits 10 x.natAbs
+  (if x < 0 then ['-'] else []) ++ List.replicate (width - ds.length) '0' ++ ds
+
+def trimZeros (ds : List Char) : List Char := (ds.reverse.dropWhile (· == '0')).reverse
+
+/-- `appendNano` for `.999999999` -/
+def fmtFrac9 (nsec : Nat) : List Char :=
+  if nsec = 0 then [] else '.' :: trimZeros (appendInt nsec 9)
+
+/-- the zone-offset case of `appendFormat` -/
+def fmtTz (iso : Bool) (style : TzStyle) (off : Int) : List Char :=
+  if off = 0 && iso then ['Z'] else
+  let zone0 := Int.tdiv off 60
+  let neg := zone0 < 0
+  let zone := if neg then -zone0 else zone0
+  let absoffset := if neg then -off else off
+  [if neg then '-' else '+'] ++ appendInt (zone / 60) 2
+    ++ (if style = .short then [] else (':' :: appendInt (zone % 60) 2))
+    ++ (if style = .colonSec then (':' :: appendInt (Int.tmod absoffset 60) 2) else [])
+
+def fmtEl (c : Civil) (nsec : Nat) (off : Int) : El → List Char
+  | .year => appendInt c.year 4
+  | .month => appendInt c.month 2
+  | .day => appendInt c.day 2
+  | .hour => appendInt c.hour 2
+  | .minute => appendInt c.min 2
+  | .second => appendInt c.sec 2
+  | .frac9 => fmtFrac9 nsec
+  | .tz iso style => fmtTz iso style off
+  | .lit ch => [ch]
+
+/-- `t.Format(layout)` -/
+def format (l : Layout) (t : GoTime) : List Char :=
+  let c := t.civil
+  (l.map (fmtEl c t.nsec t.off)).flatten
+
+/-! ## `path/types` -/
+
+def _root_.Sqljson.DateTime.t (d : DateTime) : GoTime := ⟨d.sec, d.nsec, d.off⟩
+def mkDT (k : DTKind) (t : GoTime) : DateTime := ⟨k, t.sec, t.nsec, t.off⟩
+
+/-- `civil d`: presentation fields of `d` in its own offset -/
+def civil (d : DateTime) : Civil := d.t.civil
+
+/-- `offsetLocationFor(t)`: observably, a fixed zone with `t`'s current offset -/
+def offsetLocationFor (t : GoTime) : Zone := Zone.fixed t.off
+
+/-- `NewDate(src)` -/
+def newDate (src : GoTime) : DateTime :=
+  let c := src.civil
+  mkDT .date (goDate c.year c.month c.day 0 0 0 0 (Zone.fixed 0))
+
+/-- `NewTime(src)` -/
+def newTime (src : GoTime) : DateTime :=
+  let c := src.civil
+  mkDT .time (goDate 0 1 1 c.hour c.min c.sec src.nsec (Zone.fixed 0))
+
+/-- `NewTimeTZ(src)` -/
+def newTimeTZ (src : GoTime) : DateTime :=
+  let c := src.civil
+  mkDT .timetz (goDate 0 1 1 c.hour c.min c.sec src.nsec (offsetLocationFor src))
+
+/-- `NewTimestamp(src)` -/
+def newTimestamp (src : GoTime) : DateTime :=
+  let c := src.civil
+  mkDT .timestamp (goDate c.year c.month c.day c.hour c.min c.sec src.nsec (Zone.fixed 0))
+
+/-- `NewTimestampTZ(ctx, src)` (the `tz` field is never read) -/
+def newTimestampTZ (src : GoTime) : DateTime :=
+  let c := src.civil
+  mkDT .timestamptz (goDate c.year c.month c.day c.hour c.min c.sec src.nsec (offsetLocationFor src))
+
+/-- `adjustPrecision(value, precision)`: `Round(time.Second / Pow10(precision))`.
+    For `precision ≥ 10` the divisor is 0 and `Round` returns its receiver. -/
+def adjustPrecision (t : GoTime) (precision : Int) : GoTime :=
+  if precision < 0 then t
+  else if precision > 9 then t
+  else t.round (10 ^ (9 - precision.toNat))
+
+/-- first layout of the list that parses -/
+def firstParse : List Layout → List Char → Option GoTime
+  | [], _ => none
+  | l :: ls, v => match goParse l v with | some t => some t | none => firstParse ls v
+
+def timeTZLayouts : List Layout := [timeTZHourL, timeTZMinL]
+def timestampTZLayouts : List Layout :=
+  [timestampTZHourL 'T', timestampTZHourL ' ', timestampTZMinL 'T', timestampTZMinL ' ']
+def timestampLayouts : List Layout := [timestampL 'T', timestampL ' ']
+
+/-- `types.ParseTime(ctx, src, precision)`; `precision = -1` means none -/
+def parseTime (_env : Env) (src : List Char) (precision : Int) : Option DateTime :=
+  match goParse dateL src with
+  | some v => some (newDate v)
+  | none =>
+  match firstParse timeTZLayouts src with
+  | some v => some (newTimeTZ (adjustPrecision v precision))   -- offsetOnlyTimeFor is the identity on (sec,nsec,off)
+  | none =>
+  match goParse timeL src with
+  | some v => some (newTime (adjustPrecision v precision))
+  | none =>
+  match firstParse timestampTZLayouts src with
+  | some v => some (newTimestampTZ (adjustPrecision v precision))
+  | none =>
+  match firstParse timestampLayouts src with
+  | some v => some (newTimestamp (adjustPrecision v precision))
+  | none => none
+
+/-- canonical output layout of each type -/
+def outLayout : DTKind → Layout
+  | .date => dateL
+  | .time => timeFracL
+  | .timetz => timeTZOutL
+  | .timestamp => timestampFracL
+  | .timestamptz => timestampTZOutL
 
 /-- `String()` of the five types -/
-def toString (_d : DateTime) : List Char := []
+def toString (d : DateTime) : List Char := format (outLayout d.kind) d.t
+
+/-- `MarshalJSON()` of the five types -/
+def marshalJSON (d : DateTime) : List Char := '"' :: toString d ++ ['"']
+
+/-! ### Conversions -/
+
+/-- `Date.ToTimestamp` -/
+def dateToTimestamp (d : DateTime) : DateTime := newTimestamp d.t
+
+/-- `Date.ToTimestampTZ(ctx)` -/
+def dateToTimestampTZ (env : Env) (d : DateTime) : DateTime :=
+  let c := d.t.civil
+  newTimestampTZ (goDate c.year c.month c.day 0 0 0 0 env.zone)
+
+/-- `Time.ToTimeTZ(ctx)`; `time.Now()`'s date comes from `env.todayDays` -/
+def timeToTimeTZ (env : Env) (d : DateTime) : DateTime :=
+  let now := civilFromDays env.todayDays
+  let c := d.t.civil
+  newTimeTZ (goDate now.1 now.2.1 now.2.2 c.hour c.min c.sec d.nsec env.zone)
+
+/-- `TimeTZ.ToTime` -/
+def timeTZToTime (d : DateTime) : DateTime := newTime d.t
+
+/-- `Timestamp.ToDate` -/
+def timestampToDate (d : DateTime) : DateTime := newDate d.t
+/-- `Timestamp.ToTime` -/
+def timestampToTime (d : DateTime) : DateTime := newTime d.t
+/-- `Timestamp.ToTimestampTZ(ctx)` -/
+def timestampToTimestampTZ (env : Env) (d : DateTime) : DateTime :=
+  let c := d.t.civil
+  newTimestampTZ (goDate c.year c.month c.day c.hour c.min c.sec d.nsec env.zone)
+
+/-- `TimestampTZ.ToDate(ctx)` -/
+def timestampTZToDate (env : Env) (d : DateTime) : DateTime := newDate (d.t.inZone env.zone)
+/-- `TimestampTZ.ToTime(ctx)` -/
+def timestampTZToTime (env : Env) (d : DateTime) : DateTime := newTime (d.t.inZone env.zone)
+/-- `TimestampTZ.ToTimestamp(ctx)` -/
+def timestampTZToTimestamp (env : Env) (d : DateTime) : DateTime := newTimestamp (d.t.inZone env.zone)
+/-- `TimestampTZ.ToTimeTZ(ctx)` -/
+def timestampTZToTimeTZ (env : Env) (d : DateTime) : DateTime := newTimeTZ (d.t.inZone env.zone)
+
+/-! ### JSON -/
+
+inductive UnmarshalOutcome
+  | ok (d : DateTime)
+  | err
+  | panic
+deriving Repr, DecidableEq, Inhabited
+
+/-- bytes as characters: bytes ≥ 0x80 become non-ASCII characters, which no layout accepts -/
+def bytesToChars (bs : List UInt8) : List Char := bs.map fun b => Char.ofNat b.toNat
+
+/-- `data[1 : len(data)-1]`; `none` = slice bounds out of range -/
+def unquote (data : List UInt8) : Option (List UInt8) :=
+  if data.length < 2 then none else some ((data.drop 1).take (data.length - 2))
+
+/-- `str[size-k] == '-' || str[size-k] == '+'`; `none` = index out of range -/
+def signAt (str : List UInt8) (k : Nat) : Option Bool :=
+  if str.length < k then none
+  else match str[str.length - k]? with
+    | some b => some (b == 45 || b == 43)
+    | none => none        -- `k = 0` only; not used
+
+/-- format choice of `TimeTZ.UnmarshalJSON` (unguarded indexing) -/
+def timeTZStyle (str : List UInt8) : Option TzStyle :=
+  match signAt str 9 with
+  | none => none
+  | some true => some .colonSec
+  | some false =>
+    match signAt str 6 with
+    | none => none        -- unreachable: length ≥ 9
+    | some true => some .colon
+    | some false => some .short
+
+/-- format choice of `TimestampTZ.UnmarshalJSON` (guarded by `size >= 9`, `size >= 6`) -/
+def timestampTZStyle (str : List UInt8) : TzStyle :=
+  if str.length ≥ 9 && signAt str 9 == some true then .colonSec
+  else if str.length ≥ 6 && signAt str 6 == some true then .colon
+  else .short
+
+def parsedOr (k : GoTime → DateTime) : Option GoTime → UnmarshalOutcome
+  | some t => .ok (k t)
+  | none => .err
+
+/-- `UnmarshalJSON(data)` of the five types -/
+def unmarshalJSON (kind : DTKind) (data : List UInt8) : UnmarshalOutcome :=
+  match unquote data with
+  | none => .panic
+  | some str =>
+    let s := bytesToChars str
+    match kind with
+    | .date => parsedOr newDate (goParse dateL s)
+    | .time => parsedOr newTime (goParse timeFracL s)
+    | .timestamp => parsedOr newTimestamp (goParse timestampFracL s)
+    | .timetz =>
+      match timeTZStyle str with
+      | none => .panic
+      | some st => parsedOr (mkDT .timetz) (goParse (timeTZFracL st) s)        -- `TimeTZ{Time: tim}`
+    | .timestamptz =>
+      parsedOr (mkDT .timestamptz) (goParse (timestampTZFracL (timestampTZStyle str)) s)  -- `TimestampTZ{Time: tim}`
+
+/-! ## `path/exec/datetime.go` -/
 
 /-- `exec.castDate` … `exec.castTimestampTZ`: cast `d` to `target` -/
-def castTo (_env : Env) (_useTZ : Bool) (_target : DTKind) (d : DateTime) : Except CastErr DateTime := .ok d
+def castTo (env : Env) (useTZ : Bool) (target : DTKind) (d : DateTime) : Except CastErr DateTime :=
+  match target, d.kind with
+  -- castDate
+  | .date, .date => .ok d
+  | .date, .time => .error .notRecognized
+  | .date, .timetz => .error .notRecognized
+  | .date, .timestamp => .ok (timestampToDate d)
+  | .date, .timestamptz => if useTZ then .ok (timestampTZToDate env d) else .error .tzRequired
+  -- castTime
+  | .time, .date => .error .notRecognized
+  | .time, .time => .ok d
+  | .time, .timetz => if useTZ then .ok (timeTZToTime d) else .error .tzRequired
+  | .time, .timestamp => .ok (timestampToTime d)
+  | .time, .timestamptz => if useTZ then .ok (timestampTZToTime env d) else .error .tzRequired
+  -- castTimeTZ
+  | .timetz, .date => .error .notRecognized
+  | .timetz, .time => if useTZ then .ok (timeToTimeTZ env d) else .error .tzRequired
+  | .timetz, .timetz => .ok d
+  | .timetz, .timestamp => .error .notRecognized
+  | .timetz, .timestamptz => .ok (timestampTZToTimeTZ env d)
+  -- castTimestamp
+  | .timestamp, .date => .ok (dateToTimestamp d)
+  | .timestamp, .time => .error .notRecognized
+  | .timestamp, .timetz => .error .notRecognized
+  | .timestamp, .timestamp => .ok d
+  | .timestamp, .timestamptz => if useTZ then .ok (timestampTZToTimestamp env d) else .error .tzRequired
+  -- castTimestampTZ
+  | .timestamptz, .date => if useTZ then .ok (dateToTimestampTZ env d) else .error .tzRequired
+  | .timestamptz, .time => .error .notRecognized
+  | .timestamptz, .timetz => .error .notRecognized
+  | .timestamptz, .timestamp => if useTZ then .ok (timestampToTimestampTZ env d) else .error .tzRequired
+  | .timestamptz, .timestamptz => .ok d
+
+/-- `TimeTZ.Compare(u)`: by instant, then by offset (larger offset sorts first) -/
+def timeTZCompare (t u : GoTime) : Int :=
+  let c := t.utc.compare u.utc
+  if c ≠ 0 then c
+  else if t.off > u.off then -1
+  else if t.off < u.off then 1
+  else 0
 
 /-- `exec.compareDatetime`: `.ok c` with `c ∈ {-1,0,1}`, `.ok (-2)` incomparable, `.error` = tz required -/
-def compareDatetime (_env : Env) (_useTZ : Bool) (_a _b : DateTime) : Except CastErr Int := .ok (-2)
+def compareDatetime (env : Env) (useTZ : Bool) (a b : DateTime) : Except CastErr Int :=
+  match a.kind, b.kind with
+  -- compareDate
+  | .date, .date => .ok (a.t.compare b.t)
+  | .date, .timestamp => .ok (a.t.compare b.t)
+  | .date, .timestamptz => if useTZ then .ok (a.t.compare b.t) else .error .tzRequired
+  | .date, .time => .ok (-2)
+  | .date, .timetz => .ok (-2)
+  -- compareTime
+  | .time, .time => .ok (a.t.compare b.t)
+  | .time, .timetz =>
+    if useTZ then .ok (-(timeTZCompare b.t (timeToTimeTZ env a).t)) else .error .tzRequired
+  | .time, .date => .ok (-2)
+  | .time, .timestamp => .ok (-2)
+  | .time, .timestamptz => .ok (-2)
+  -- compareTimeTZ
+  | .timetz, .time =>
+    if useTZ then .ok (timeTZCompare a.t (timeToTimeTZ env b).t) else .error .tzRequired
+  | .timetz, .timetz => .ok (timeTZCompare a.t b.t)
+  | .timetz, .date => .ok (-2)
+  | .timetz, .timestamp => .ok (-2)
+  | .timetz, .timestamptz => .ok (-2)
+  -- compareTimestamp
+  | .timestamp, .date => .ok (a.t.compare b.t)
+  | .timestamp, .timestamp => .ok (a.t.compare b.t)
+  | .timestamp, .timestamptz => if useTZ then .ok (a.t.utc.compare b.t) else .error .tzRequired
+  | .timestamp, .time => .ok (-2)
+  | .timestamp, .timetz => .ok (-2)
+  -- compareTimestampTZ
+  | .timestamptz, .date => if useTZ then .ok (a.t.compare b.t.utc) else .error .tzRequired
+  | .timestamptz, .timestamp => if useTZ then .ok (a.t.compare b.t.utc) else .error .tzRequired
+  | .timestamptz, .timestamptz => .ok (a.t.compare b.t)
+  | .timestamptz, .time => .ok (-2)
+  | .timestamptz, .timetz => .ok (-2)
 
 end Time
 end Sqljson
